@@ -282,6 +282,62 @@ def x_hist(ctx, case):
     return nontrivial
 
 
+def x_stream_replay(ctx, case):
+    """ExtendedToStreamDecorator -> StreamToExtendedDecorator -> TextTestResult: the verdict and the summary of
+    the result at the far end agree with what was reported, also for a test whose id is the empty string and for
+    a test still in progress when the run stops (reported as a failure BEFORE the summary is written)."""
+    import testtools
+    stream = io.StringIO()
+    leaf = testtools.TextTestResult(stream)
+    top = testtools.ExtendedToStreamDecorator(testtools.StreamToExtendedDecorator(leaf))
+    top.startTestRun()
+    outcomes, ids = case["tests"], case["ids"]
+    for i, (o, tid) in enumerate(zip(outcomes, ids)):
+        make_test(i, o, "testcase", None, "t%d" % i).run(top) if tid is None else _IdTest(o, tid).run(top)
+    n = len(outcomes)
+    problems = sum(1 for o in outcomes if o in BAD)
+    if case.get("hung"):
+        top.startTest(testtools.PlaceHolder("still-running"))
+        n += 1
+        problems += 1
+    top.stopTestRun()
+    text = stream.getvalue()
+    ran = re.findall(r"\nRan (\d+) tests? in ", text)
+    sections = re.findall(r"^(ERROR|FAIL|UNEXPECTED SUCCESS): ?(.*)$", text, re.M)
+    last = text.rstrip().splitlines()[-1] if text.strip() else ""
+    ok = (leaf.wasSuccessful() == (problems == 0) and ran == [str(n)] and len(sections) == problems
+          and (last == "OK" if problems == 0 else last.startswith("FAILED (failures=%d" % problems)))
+    ctx.check(ok, "text.summary-agrees",
+              lambda: {"case": case, "wasSuccessful": leaf.wasSuccessful(), "Ran": ran, "sections": sections,
+                       "last line": last, "problems reported": problems, "tail": text[-300:]})
+    return True
+
+
+def x_concurrent_abort(ctx, case):
+    """stop() must reach the workers' results when a concurrent suite's run() is aborted by an interrupt in the
+    calling thread (the machinery - controlled scheduler, interrupt injection - is C13's)."""
+    from . import c13
+    return c13.x_schedule(ctx, case)
+
+
+class _IdTest:
+    """A test object with an arbitrary id (also the empty string) and a fixed outcome."""
+
+    def __init__(self, outcome, tid):
+        self.outcome, self.tid = outcome, tid
+
+    def run(self, result):
+        import testtools
+        name = {"success": "addSuccess", "failure": "addFailure", "error": "addError", "skip": "addSkip",
+                "xfail": "addExpectedFailure", "uxsuccess": "addUnexpectedSuccess"}[self.outcome]
+        details = {}
+        if self.outcome in ("failure", "error", "xfail"):
+            details = {"traceback": testtools.content.text_content("tb")}
+        if self.outcome == "skip":
+            details = {"reason": testtools.content.text_content("because")}
+        testtools.PlaceHolder(self.tid, outcome=name, details=details).run(result)
+
+
 _mod_counter = iter(range(10 ** 9))
 
 
@@ -407,7 +463,8 @@ def x_subprocess(ctx, case):
     return True
 
 
-SUBCHECKS = {"hist": x_hist, "run": x_run, "subprocess": x_subprocess}
+SUBCHECKS = {"hist": x_hist, "run": x_run, "subprocess": x_subprocess, "stream_replay": x_stream_replay,
+             "concurrent_abort": x_concurrent_abort}
 
 
 def random_segment(rng):
@@ -465,6 +522,17 @@ def run(ctx):
         tests = [rng.choice(OUTCOMES) for _ in range(rng.randint(0, 5))]
         ctx.execute("run", {"tests": tests, "failfast": rng.random() < 0.3,
                             "runner_class": rng.choice([None, None, "no_tb_locals", "prior"])})
+    for kind in ("cts", "stream"):
+        for at in (3, 5, 8, 11):
+            for rep in range(2):
+                ctx.execute("concurrent_abort", {"kind": kind, "workers": [{"tests": 2}, {"tests": 2}],
+                                                 "abort": ["interrupt", at], "mode": "random",
+                                                 "rseed": rng.randrange(10 ** 9), "p": 0.5})
+    for tests in (["success"], ["failure"], ["success", "error", "success"], ["skip", "xfail"], ["uxsuccess", "success"], []):
+        for empty_at in [None] + list(range(len(tests))):
+            for hung in (False, True):
+                ids = [("" if k == empty_at else None) for k in range(len(tests))]
+                ctx.execute("stream_replay", {"tests": tests, "ids": ids, "hung": hung})
     for tests in (["success"], ["success", "failure", "success"], ["skip", "success"]):
         for k in range(len(tests)):
             ctx.execute("run", {"tests": tests, "interrupt_at": k})
